@@ -1,0 +1,43 @@
+//go:build verif
+
+package ccittfax
+
+// VerifBufferLens reports the capacity of the line buffer and the length of
+// the reference line that the real NewReaderRaw allocates for p
+// (verification property C08).  It adds no logic of its own.
+func VerifBufferLens(p *Params) (lineCap, refLen int, err error) {
+	r, err := NewReaderRaw(nil, p)
+	if err != nil {
+		return 0, 0, err
+	}
+	return cap(r.line), len(r.refLine), nil
+}
+
+// VerifMainTable exports the 2-D mode table: state, code width and signed
+// parameter of each of the 128 entries.
+func VerifMainTable() (states []int, widths []int, params []int) {
+	for _, e := range mainTable {
+		states = append(states, int(e.State))
+		widths = append(widths, int(e.Width))
+		params = append(params, int(int16(e.Param)))
+	}
+	return
+}
+
+// VerifStates exports the numeric values of the decoder states the C08 model names.
+func VerifStates() (pass, horiz, vert, ext, eol int) {
+	return int(S_Pass), int(S_Horiz), int(S_Vert), int(S_Ext), int(S_EOL)
+}
+
+// VerifRunTables exports width and run length of the white and black run tables.
+func VerifRunTables() (whiteW, whiteP, blackW, blackP []int) {
+	for _, e := range whiteTable {
+		whiteW = append(whiteW, int(e.Width))
+		whiteP = append(whiteP, int(e.Param))
+	}
+	for _, e := range blackTable {
+		blackW = append(blackW, int(e.Width))
+		blackP = append(blackP, int(e.Param))
+	}
+	return
+}
